@@ -325,6 +325,14 @@ def l1_scenarios(rng, quick):
         cfg = mkcfg([1, 1], [[1]] * 2, [[[1, 4]], [[2, 4]]], init=((3,), ()))
         out.append({"name": "stalled-holder/2/npy-f32", "fmt": "npy", "mode": "f32", "cfg": cfg, "style": [["full"] * RU] * RP, "idx": len(out),
                     "stall": 12.0})
+    combos = ([("full", "partA", "none"), ("partA", "full"), ("full", "full", "partB")] if quick else
+              [c for c in __import__("itertools").product(("full", "partA", "none"), ("full", "partB", "none"))] +
+              [("full", "partA", "partB"), ("full", "full", "partC"), ("none", "full", "partA"), ("partA", "partB", "partC")])
+    for k, classes in enumerate(combos):
+        fmt, mode = kinds[(0, 1, 4, 5)[k % 4]]            # float formats (NaN = undefined) first of all; RGBA below
+        out.append(coverage_scenario(fmt, mode, classes, k % 2 == 1, len(out)))
+        if not quick:
+            out.append(coverage_scenario("png", "rgba", classes, k % 2 == 0, len(out)))
     out += env_scenarios(quick, len(out))
     out += launch_scenarios(quick, len(out))
     return out
@@ -421,6 +429,18 @@ def env_scenarios(quick, start_idx):
     return out
 
 
+COVER = {"full": [1, 2, 3, 4], "partA": [1, 4], "partB": [2, 4], "partC": [3], "none": []}
+
+
+def coverage_scenario(fmt, mode, classes, existing, idx):
+    """ToastSampler jobs whose samples define every pixel / part / nothing of one tile (fresh or existing), one update each:
+    a fully defined contribution is where "update" degenerates to "overwrite"."""
+    n = len(classes)
+    cfg = mkcfg([1] * n, [[1]] * n, [[COVER[c]] for c in classes], init=((3,) if existing else (), ()))
+    return {"name": "toast-sampler-coverage/%s/%s/%s-%s" % ("+".join(classes), "existing" if existing else "fresh", fmt, mode),
+            "fmt": fmt, "mode": mode, "cfg": cfg, "style": None, "idx": idx, "caller": "toast"}
+
+
 def toast_scenario(fmt, mode, n, idx):
     cfg = mkcfg([2] * n, [[1, 2]] * n, [[[p], [p, 4 if p != 4 else 1]] for p in range(1, n + 1)])
     return {"name": "toast-sampler-fresh/%d/%s-%s" % (n, fmt, mode), "fmt": fmt, "mode": mode, "cfg": cfg, "style": None, "idx": idx, "caller": "toast"}
@@ -485,8 +505,8 @@ def _l1_updater(p, sc, d, sh):
                 ToastSampler(pio, sampler, False).visit_callback(real_pos(t), tiles[POS_XY[t]])
                 continue
             if first and i == 1 and p != first:               # entering order: the designated updater is inside first
-                with cond:
-                    cond.wait_for(lambda: entered.value == 1, 20)
+                with cond:                                    # (and, if there is one, the foreign job has finished)
+                    cond.wait_for(lambda: entered.value == (2 if sc.get("finisher") else 1), 30)
             with pio.update_image(real_pos(t), masked_mode=mode_of(mode), default="masked", **update_kwargs(sc, p)) as basis:
                 t0 = draw()                                   # before the work
                 with cond:                                    # rendezvous: succeeds iff a second body is inside this tile now
@@ -499,7 +519,10 @@ def _l1_updater(p, sc, d, sh):
                         cond.notify_all()
                     elif first:
                         if first == p and i == 1:
-                            cond.wait(2 * DWELL)
+                            if sc.get("finisher"):
+                                cond.wait_for(lambda: entered.value == 2 or inside[t] >= 2, 30)
+                            if inside[t] < 2:
+                                cond.wait(2 * DWELL)
                     elif i == 1:
                         cond.wait(sc["stall"] if (t0 == 1 and sc.get("stall")) else DWELL)   # "stall": the first holder overall
                 px0 = project(basis.asarray(), mode)
@@ -517,6 +540,54 @@ def _l1_updater(p, sc, d, sh):
     os._exit(0)
 
 
+def _l1_finisher(sc, d, sh):
+    """A separately started tiling job on the same pyramid that FINISHES while an updater of another job is inside its
+    critical section: a real MultiTanProcessor.tile() over a 600 x 1 pixel image (its data fall into other tiles of the
+    level-2 layer; like every multi_tan / multi_wcs job it ends with pio.clean_lockfiles(level))."""
+    import warnings
+    warnings.simplefilter("ignore")
+    ticket, cond, inside, overlap, barrier, entered = sh
+    err = None
+    try:
+        from toasty import collection, multi_tan
+        from toasty.builder import Builder
+        from toasty.pyramid import PyramidIO
+        pio = PyramidIO(d, default_format=sc["fmt"])
+        proc = multi_tan.MultiTanProcessor(collection.SimpleFitsCollection([sc["finisher"]]))
+        proc.compute_global_pixelization(Builder(pio))
+        if proc._tiling._tile_levels != POS_XY[1][0]:
+            raise RuntimeError("foreign job tiles level %d, harness tiles are at level %d" % (proc._tiling._tile_levels, POS_XY[1][0]))
+        barrier.wait(90)
+        with cond:
+            cond.wait_for(lambda: entered.value == 1, 30)
+        proc.tile(pio, parallel=1, cli_progress=False)
+    except BaseException as e:  # noqa
+        err = "%s: %s" % (type(e).__name__, str(e)[:200])
+    with cond:
+        entered.value = 2
+        cond.notify_all()
+    with open(os.path.join(d, "finisher.json"), "w") as f:
+        json.dump({"error": err}, f)
+    os._exit(0)
+
+
+def foreign_job_scenario(scratch):
+    """Two updaters of one tile (job Y, the first one held inside its body) + a foreign MultiTanProcessor job X finishing."""
+    import numpy as np
+    from astropy.io import fits
+    from astropy.wcs import WCS
+    w = WCS(naxis=2)
+    w.wcs.ctype = ["RA---TAN", "DEC--TAN"]
+    w.wcs.crval = [10.0, 20.0]
+    w.wcs.crpix = [300.5, 1.0]
+    w.wcs.cdelt = [-0.001, 0.001]
+    src = os.path.join(scratch, "strip.fits")
+    fits.PrimaryHDU(np.ones((1, 600), dtype=np.float32), header=w.to_header()).writeto(src, overwrite=True)
+    cfg = mkcfg([1, 1], [[1]] * 2, [[[1, 4]], [[2, 4]]], init=((3,), ()))
+    return {"name": "foreign-job-finishes/2/fits-f32", "fmt": "fits", "mode": "f32", "cfg": cfg, "style": [["full"] * RU, ["slice"] * RU] * 2,
+            "idx": 998, "first": 1, "finisher": src, "deadline": 60, "entry": "MultiTanProcessor.tile"}
+
+
 def _l1_run(sc, d):
     """Run one scenario with real processes; returns the recording."""
     import multiprocessing as mp
@@ -525,8 +596,8 @@ def _l1_run(sc, d):
     os.makedirs(d, exist_ok=True)
     pio = prepare_dir(sc, d)
     procs = [p for p in range(1, RP + 1) if sc["cfg"]["nupd"][p - 1] > 0]
-    sh = (ctx.Value("i", 0), ctx.Condition(), ctx.Array("i", NPOS + 1, lock=False), ctx.Value("i", 0, lock=False), ctx.Barrier(len(procs)),
-          ctx.Value("i", 0, lock=False))
+    sh = (ctx.Value("i", 0), ctx.Condition(), ctx.Array("i", NPOS + 1, lock=False), ctx.Value("i", 0, lock=False),
+          ctx.Barrier(len(procs) + (1 if sc.get("finisher") else 0)), ctx.Value("i", 0, lock=False))
     t0 = time.time()
     ws = []
     for p in procs:
@@ -549,6 +620,10 @@ def _l1_run(sc, d):
         else:
             w.start()
         ws.append(w)
+    fin = None
+    if sc.get("finisher"):
+        fin = ctx.Process(target=_l1_finisher, args=(sc, d, sh))
+        fin.start()
     stuck = []
     deadline = time.time() + sc.get("deadline", 60)
     for p, w in zip(procs, ws):
@@ -567,6 +642,15 @@ def _l1_run(sc, d):
                 errors[p] = rec["error"]
         elif p not in stuck:
             errors[p] = "updater exited without a recording"
+    if fin is not None:
+        fin.join(10)
+        if fin.is_alive():
+            fin.kill()
+            fin.join()
+        fpath = os.path.join(d, "finisher.json")
+        ferr = json.load(open(fpath))["error"] if os.path.exists(fpath) else "no report"
+        if ferr:
+            raise RuntimeError("the foreign tiling job could not be run: %s" % ferr)
     events.sort(key=lambda e: e["t"])
     locks_left = sorted(fn for _r, _d, fns in os.walk(d) for fn in fns if fn.endswith(".lock"))
     tiles = read_final(pio, sc)
@@ -697,6 +781,7 @@ class Harness(object):
         self.gates_seen = set()
         self._tile_cache = {}
         self.lock_files = set()
+        self.tile_paths = {self.pio.tile_path(real_pos(t), format=sc["fmt"], makedirs=False) for t in range(1, NPOS + 1)}
 
     # -- actor side
     def gate(self, kind, *payload):
@@ -774,6 +859,8 @@ class Harness(object):
                         sp = os.fspath(path)
                         if isinstance(sp, str) and (sp.endswith(".lock") or sp in H.lock_files):
                             H.gate("unlink-lock", sp)
+                        elif isinstance(sp, str) and sp in H.tile_paths:
+                            H.log("wbegin")           # write_image of a completely masked buffer: the tile file is removed
                     return orig(path, *a, **k)
                 return delete
 
@@ -827,7 +914,7 @@ class Harness(object):
                 # what np.save / PIL / fits.writeto(overwrite=True) do first: the destination exists and is empty.
                 # (A new inode, as fits.writeto does: the buffer being saved may be memory-mapped from the old file.)
                 try:
-                    os.unlink(path_or_stream)
+                    o_unlink(path_or_stream)
                 except OSError:
                     pass
                 open(path_or_stream, "wb").close()
@@ -1138,6 +1225,15 @@ def run(ctx):
         ctx.violation("C10:update_image:sequential-lost-update", "three updates by one process, one after another: final tiles %s lack a contribution"
                       % (srec["tiles"],), {"cfg": solo["cfg"], "events": srec["events"], "final": srec["tiles"]})
 
+    # ---- opt-in (./check C10 --tier quick --foreign-job, or C10_FOREIGN_JOB=1): a separately started tiling job on the same
+    # pyramid finishes (MultiTanProcessor.tile ends with pio.clean_lockfiles) while an updater of another job holds a tile lock
+    foreign = None
+    if "--foreign-job" in getattr(ctx, "extra_args", []) or os.environ.get("C10_FOREIGN_JOB") == "1":
+        fsc = foreign_job_scenario(ctx.mkdtemp("fj"))
+        foreign = (fsc, _l1_run(fsc, ctx.mkdtemp("fjrun")))
+        ctx.count(2)
+        ctx.note("foreign_job", {"overlap": foreign[1]["overlap"], "final": foreign[1]["tiles"], "wall": foreign[1]["wall"]})
+
     # ---- layer 1 managers are forked first (before this process has threads)
     scs = l1_scenarios(rng, quick)
     base = ctx.mkdtemp("l1")
@@ -1182,7 +1278,7 @@ def run(ctx):
             "MCTileLockNeg", extra={"MCTileLockNeg.tla": mc_module("MCTileLockNeg", neg)}, cfg_text=MC_CFG % ("Spec", 3, 2, "INVARIANT " + inv_name),
             workers=1, timeout=600, expect_violation=True, count=False)))
     sims = sim_configs()
-    nsim = 60 if quick else 2000
+    nsim = 40 if quick else 2000
     bg.start("sim", lambda: ctx.tlc("MCTileLockSim", extra={"MCTileLockSim.tla": mc_module("MCTileLockSim", [s["cfg"] for s in sims], [EMIT])},
                                     cfg_text=MC_CFG % ("Spec", RP, RU, "INVARIANT Emit\nINVARIANT Mutex\nINVARIANT NoLostUpdate"),
                                     simulate=nsim, depth=400, workers=1, timeout=3000, count=False))
@@ -1268,6 +1364,36 @@ def run(ctx):
             traces.append(("thread-level schedule", tdfs, rec, ["read", "modify"]))
             ctx.count(2)
         ctx.note("dfs_toast_sampler_2x1", {"schedules": truns, "complete": not stack})
+        # ... and the same for every pair of coverage classes (every pixel / part / nothing defined), fresh and existing tile:
+        # all interleavings, hence both entering orders
+        pairs = [("full", "partA", False), ("full", "partA", True), ("full", "none", False), ("partA", "none", True)]
+        if not quick:
+            pairs = [(a, b, e) for a, b in (("full", "partA"), ("full", "full"), ("full", "none"), ("partA", "partB"), ("partA", "none"),
+                                            ("none", "none")) for e in (False, True)]
+        ncov = 0
+        for k, (ca, cb, existing) in enumerate(pairs):
+            fmt, mode = [("npy", "f32"), ("fits", "f32"), ("npy", "f64")][k % 3]
+            csc = coverage_scenario(fmt, mode, (ca, cb), existing, 0)
+            csc["name"] = "dfs-" + csc["name"]
+            stack, cruns = [[]], 0
+            while stack and cruns < (40 if quick else 400):
+                prefix = stack.pop()
+
+                def chooser(H, allowed, n, prefix=prefix):
+                    if n < len(prefix):
+                        return allowed.index(prefix[n]) if prefix[n] in allowed else 0
+                    return 0
+                rec, alts = explore_run(csc, ctx.mkdtemp("cdfs"), chooser, fail_bound=0 if quick else 1)
+                cruns += 1
+                sched = rec["schedule"]
+                for j in range(len(prefix), len(sched)):
+                    for alt in alts[j]:
+                        if alt != sched[j]:
+                            stack.append(sched[:j] + [alt])
+                traces.append(("thread-level schedule", csc, rec, ["read", "modify"]))
+                ctx.count(2)
+            ncov += cruns
+        ctx.note("dfs_toast_sampler_coverage_pairs", {"pairs": len(pairs), "schedules": ncov})
         for k in range(9 if quick else 200):
             fmt, mode = [("npy", "f32"), ("fits", "f32"), ("png", "rgba")][k % 3]
             sc = toast_scenario(fmt, mode, 3, k)
@@ -1291,7 +1417,7 @@ def run(ctx):
         ctx.note("stall_holder_schedules", {"runs": nstall, "waiter_polls": 40, "virtual_seconds_per_failed_poll": ">= 1"})
         # 2b random: bigger instances
         rsc = [dict(s, name="rand-" + s["name"]) for s in sims]
-        for k in range(24 if quick else 600):
+        for k in range(16 if quick else 600):
             sc = rsc[k % len(rsc)]
             r2 = __import__("random").Random(ctx.seed * 1000 + k)
             rec, _ = explore_run(sc, ctx.mkdtemp("rnd"), lambda H, allowed, n, r2=r2: r2.randrange(len(allowed)))
@@ -1366,6 +1492,8 @@ def run(ctx):
     for sc, rec in zip(scs, l1):
         traces.append(("real processes", sc, rec, L1_HIDDEN + (["read", "modify"] if sc.get("caller") else [])))
         ctx.count(sum(sc["cfg"]["nupd"]))
+    if foreign:
+        traces.append(("real processes", foreign[0], foreign[1], L1_HIDDEN))
 
     # ---- code -> spec: every recording validated by TLC, then judged
     verdicts = validate_traces(ctx, [(sc["cfg"], hidden, rec["events"], rec["tiles"]) for _k, sc, rec, hidden in traces])
@@ -1373,7 +1501,7 @@ def run(ctx):
     rejected_quiet = 0
     once = Once(ctx)
     for (kind, sc, rec, hidden), (acc, consumed) in zip(traces, verdicts):
-        entry = "ToastSampler" if sc.get("caller") == "toast" else "update_image"
+        entry = sc.get("entry") or ("ToastSampler" if sc.get("caller") == "toast" else "update_image")
         prefix = ("C10:%s:" % entry) if kind == "real processes" else ("C10:%s:schedule:" % entry)
         if rec.get("unfinished"):
             rec.setdefault("stuck", ["schedule did not finish in 400 steps"])
